@@ -823,6 +823,18 @@ class StmtMixin:
         # arbitrary iteration
         body_st = st.copy()
         i = z3.Int(fresh_name('i'))
+        # loop specials under the loop's ordinal (_i0, _pos0, _seq0): visible to the invariants of nested loops
+        saved_outer = fr.bound
+        fr.bound = dict(fr.bound)
+        fr.bound['_i%d' % idx] = ops.SI(i)
+        for k_, v_ in sq.items():
+            fr.bound['%s%d' % (k_, idx)] = v_
+        try:
+            return self.loop_vc_body(s, st, fr, idx, inv, n, get, sq, outs, entry, body_st, i)
+        finally:
+            fr.bound = saved_outer
+
+    def loop_vc_body(self, s, st, fr, idx, inv, n, get, sq, outs, entry, body_st, i):
         tnames = assigned_names([ast.Assign(targets=[s.target], value=ast.Constant(0))])
         pj = z3.Int(fresh_name('pi'))
         changed, _ = self.havoc_for_loop(s, body_st, fr, s.body, tnames,
